@@ -39,7 +39,8 @@ Record env := mkEnv {
 }.
 
 Inductive op := Assign (v : val) | Read | Delete     (* obj.x = v, obj.x, del obj.x *)
-              | QuietAssign (v : val).            (* obj.trait_set(trait_change_notify=False, x=v) / trait_setq *)
+              | QuietAssign (v : val)             (* obj.trait_set(trait_change_notify=False, x=v) / trait_setq *)
+              | Retrait.                          (* obj.add_trait("x", <the same trait definition>) over the existing trait *)
 Inductive outcome := Ok | TraitError | AttributeError.
 Definition call := (nat * oldv * val)%type.       (* handler id, old, new *)
 Record obs := mkObs {
@@ -113,6 +114,11 @@ Section WithEnv.
                   (Some d, mkObs Ok (Some d) (c0 ++ cs) (k0 ++ sk))
             end
         end
+    | Retrait =>
+        (* has_traits.py add_trait l.2835-2848: the new instance trait is a clone of the given definition and takes over
+           the notifier list of the trait it replaces (static wrappers included, nothing is attached a second time);
+           the stored value stays; no notification *)
+        (s, mkObs Ok s [] [])
     | QuietAssign v =>
         (* has_traits.py trait_set l.1449-1458: _trait_change_notify(False); try: setattr finally: _trait_change_notify(True).
            With HASTRAITS_NO_NOTIFY set, setattr_trait does everything but call_notifiers returns at once (l.2270);
